@@ -265,20 +265,25 @@ def assist_prefix_import(run):
             src, col = 'import ' + a + b, 7 + len(a)
         elif holder['form'] == 'from-module':
             src, col = 'from ' + a + b + ' import x', 5 + len(a)
+        elif holder['form'] == 'from-name-after-a-parenthesis':
+            src, col = 'from os import(' + a + b + ')', 15 + len(a)
+        elif holder['form'] == 'from-name-after-a-tab':
+            src, col = 'from os import\t' + a + b, 15 + len(a)
         else:
             src, col = 'from os import ' + a + b, 15 + len(a)
         return {'input': {'source': src, 'cursor': [1, col]}, 'script': IMPORT_REPLAY % {'repo': core.REPO, 'src': src, 'col': col}}
     run.concretise = conc
 
-    for form in ('import', 'from-module', 'from-name'):
+    for form in ('import', 'from-module', 'from-name', 'from-name-after-a-parenthesis', 'from-name-after-a-tab'):
         def body(form=form):
             holder['form'] = form
             # the text left of the cursor on the line ends with A
-            pre = 'import ' if form == 'import' else 'from ' if form == 'from-module' else 'from m import '
+            pre = {'import': 'import ', 'from-module': 'from ', 'from-name': 'from m import ', 'from-name-after-a-parenthesis': 'from m import(',
+                   'from-name-after-a-tab': 'from m import\t'}[form]
             A, B = SStr.sym('A'), SStr.sym('B')
             for s in (A, B):
                 text_line(s.base)
-            if form == 'from-name':
+            if form.startswith('from-name'):
                 domain_chars(A, is_ident_char)
                 domain_chars(B, is_ident_char)
             else:
